@@ -6,7 +6,7 @@ package main
 
 func init() {
 	registry["C01"] = &propSpec{
-		Rules:       []ruleFn{ruleC01Range, ruleC01Head, ruleC17Srv, ruleC06Hole, ruleC06Snapstep},
+		Rules:       []ruleFn{ruleC01Range, ruleC01Head, ruleC17Srv, ruleC06Hole, ruleC06Snapstep, ruleC06Run},
 		Explanation: "Necessary structural conditions of block read-back semantics, decided on every path of the source: (C01-RANGE) each controller call into the replicator's WriteAt/ReadAt is dominated by the exact facts off>=0 and off+len(b)<=c.size under the controller lock; (C01-HEADWRITE) fullWriteAt writes only the head file and records every written sector in the block map unconditionally, no other function writes a chain file, read-modify-write of edge blocks runs under rmLock, RemoveIndex shifts every entry >= index, lookup probes from the head downwards, preload records every extent under the scanned file; (C17-SRV-GUARD) the replica data path dereferences the open replica only under the server read lock and a nil test.",
 		NotDecided:  "byte-level equality of what is read with what was written (values of the run-time map, FIEMAP extents, unaligned split arithmetic), zero-fill of never-written ranges.",
 	}
@@ -31,12 +31,12 @@ func init() {
 		NotDecided:  "wall-clock promptness; which detector fires first; that the survivors hold the data.",
 	}
 	registry["C06"] = &propSpec{
-		Rules:       []ruleFn{ruleC06Hole, ruleC06Snapstep, ruleC01Head, ruleC11Sync, ruleC06RevertCtl, ruleC12Rollback, ruleC12, ruleC08CloseWho},
+		Rules:       []ruleFn{ruleC06Hole, ruleC06Run, ruleC06Snapstep, ruleC01Head, ruleC11Sync, ruleC06RevertCtl, ruleC12Rollback, ruleC12, ruleC08CloseWho},
 		Explanation: "Decides that every hole-punch request targets the file whose index the dominating strict guard compared with the latest user-created snapshot index (guard/use consistency via files[G] or paired phis), that UserCreatedSnap changes in lock-step with the file list and SnapIndx is set only under the user-created flag, that the hole queue is drained before files are unlinked or closed, that only fullWriteAt writes chain files (and only the head), and that revert creates the new head on the requested snapshot, commits volume.meta before removing the old head and reloads with preload.",
 		NotDecided:  "that the snapshot image equals the volume at the instant it was taken; byte identity after preload/reopen; what FIEMAP reports.",
 	}
 	registry["C07"] = &propSpec{
-		Rules:       []ruleFn{ruleC07AddOrder("C07-ADD-ORDER"), ruleC07Merge, ruleC07Sync, ruleC07SyncFiles, ruleCanAdd("C07-ONE-WO"), ruleC04Verify("C07-VERIFY"), ruleBuildRW("C07-WRITERS"), ruleIndexMapUse("C07-INDEXMAP"), ruleC07Copy("C07-COPY"), ruleC01Head, ruleErrFlow("C07-ERRFLOW")},
+		Rules:       []ruleFn{ruleC07AddOrder("C07-ADD-ORDER"), ruleC07Merge, ruleC06Run, ruleC07Sync, ruleC07SyncFiles, ruleCanAdd("C07-ONE-WO"), ruleC04Verify("C07-VERIFY"), ruleBuildRW("C07-WRITERS"), ruleIndexMapUse("C07-INDEXMAP"), ruleC07Copy("C07-COPY"), ruleC01Head, ruleErrFlow("C07-ERRFLOW"), ruleSendFile("C07-SENDFILE")},
 		Explanation: "Decides the ordering obligations of a rebuild: admission only after canAdd, the same snapshot on old and new replicas, WO mode on replica, list entry and wrapper; at most one WO unless the newcomer has the strictly greater revision and the old WO was removed; punching off and rebuilding flag set before the copy; ReloadReplica -> SyncDir -> UpdateLUNMap -> VerifyRebuildReplica -> SetRebuilding(false), each after the success of its predecessor; the live block map is overwritten by the preloaded one only where live <= preloaded; WO replicas receive every write; promotion as in C04-VERIFY.",
 		NotDecided:  "byte identity (copying is done by external ssync); interleavings and crash points of three processes.",
 	}
@@ -46,7 +46,7 @@ func init() {
 		NotDecided:  "what reopen sees at each intermediate on-disk state; torn 4 KiB writes; durability of O_DIRECT data.",
 	}
 	registry["C09"] = &propSpec{
-		Rules:       []ruleFn{ruleC09, ruleRevParse("C09-REVPARSE"), ruleC09Register},
+		Rules:       []ruleFn{ruleC09, ruleRevParse("C09-REVPARSE"), ruleC09Register, ruleC09RegWire},
 		Explanation: "Decides that the post-election start signal is guarded by the registered-majority facts, that a rebuilding replica never becomes leader, that the leader is replaced only by the registered entry with a strictly greater RevCount (the stored value is that entry's key), that StartSignalled is set only after a delivered signal and an unreachable leader is deleted from the registry before its name is cleared, that Start is honoured only from the signalled leader with no replica attached, that lower counters are marked ERR against the running maximum, and that revision counts are parsed as 64-bit decimals.",
 		NotDecided:  "truthfulness of reported counts; liveness probes; orderings of registrations as such.",
 	}
@@ -86,7 +86,7 @@ func init() {
 		NotDecided:  "that existing bytes are unchanged and the new range reads zero (properties of truncate(2)).",
 	}
 	registry["C17"] = &propSpec{
-		Rules:       []ruleFn{ruleC17Attach, ruleC17Srv, ruleC17Matrix, ruleC11Refuse("C17-RW-ONLY"), ruleC10},
+		Rules:       []ruleFn{ruleC17Attach, ruleC17Srv, ruleC17Matrix, ruleC17Status, ruleC11Refuse("C17-RW-ONLY"), ruleC10},
 		Explanation: "Decides that every Server method uses the open replica only under a server lock and a nil test, that closed replicas refuse I/O, that a second Open is refused, that Close marks the replica CLOSED unconditionally, that writes succeed only in RW/WO, that removal and counter updates require RW, that attach requires state closed, and that the state->action table forbids chain-mutating actions while rebuilding / open outside closed / create outside initial, with every action route gated by checkAction.",
 		NotDecided:  "'refused without side effects' for actions that pass the table and fail later.",
 	}
@@ -96,7 +96,7 @@ func init() {
 		NotDecided:  "the invariants as statements over all reachable states (only preservation by every mutation site).",
 	}
 	registry["C19"] = &propSpec{
-		Rules:       []ruleFn{ruleC19Promote("C19-PROMOTE"), ruleC19Clone, ruleC07AddOrder("C19-WO"), ruleSyncFilesAs("C19-SYNCFILES", 5), ruleC08Err, ruleErrFlow("C19-ERRFLOW")},
+		Rules:       []ruleFn{ruleC19Promote("C19-PROMOTE"), ruleC19Clone, ruleC07AddOrder("C19-WO"), ruleSyncFilesAs("C19-SYNCFILES", 5), ruleC08Err, ruleErrFlow("C19-ERRFLOW"), ruleSendFile("C19-SENDFILE")},
 		Explanation: "Decides that the clone procedure reports success only after SetRebuilding(true), the copy of the chain from S, UpdateCloneInfo(S, S's revision), reload, block-map rebuild and SetRebuilding(false) each succeeded in that order; that the status becomes completed only after that (or if it already was), inProgress before the copy, error after a failure, and is persisted; and that the new controller promotes the replica only after reading a status that is none of empty / inProgress / error, removing the replica on error.",
 		NotDecided:  "byte identity with S; the interleaving of the copy with the other controller's polling as a schedule.",
 	}
